@@ -67,7 +67,7 @@ func verifOpenEmptyStreamPipeline(dir, offsetsPath string, antispam int, outFn f
 	return p
 }
 
-func TestVerifOpenEmptyStreamPrefilter(t *testing.T) {
+func TestVerifEmptyStreamPrefilter(t *testing.T) {
 	dir := t.TempDir()
 	offDir := t.TempDir()
 	name := filepath.Join(dir, "a.log")
